@@ -22,7 +22,9 @@ macro_rules! props {
 }
 
 props! {
+    "C01" => c01,
     "C02" => c02,
+    "C03" => c03,
     "C07" => c07,
     "C08" => c08,
     "C12" => c12,
